@@ -16,7 +16,7 @@ keeps the pinned `use-vc` rule for the counterexample theorem.
 namespace Cares.Text
 
 /-- `ARES_OPT_*` bits 0..23 -/
-structure Mask where
+@[ext] structure Mask where
   flags : Bool := false          -- 0
   timeout : Bool := false        -- 1  (seconds; converted to timeoutms)
   tries : Bool := false          -- 2
@@ -72,7 +72,7 @@ structure Options where
   deriving DecidableEq, Repr
 
 /-- configuration part of `struct ares_channeldata` -/
-structure Chan where
+@[ext] structure Chan where
   flags : Nat := 0
   timeout : Nat := 0
   tries : Nat := 0
@@ -152,13 +152,10 @@ def normMask (o : Options) (m : Mask) : Mask :=
 /-- seconds → milliseconds of `ARES_OPT_TIMEOUT`, saturating at INT_MAX (repaired tree) -/
 def secToMs (t : Int) : Nat := if t > 2147483647 / 1000 then 2147483647 else t.toNat * 1000
 
-/-- `ares_init_by_options(channel, options, optmask)`.  Every field is written by exactly one step of
-    the C function, so the result is given field by field; the server list (the last step that reads
-    other fields) uses the flags and default ports stored before it. -/
-def initByOptions (c : Chan) (opts : Option Options) (m : Mask) : Except Status Chan :=
-  match opts with
-  | none => if m != {} then .error .enodata else .ok { c with qcacheMaxTtl := 3600, optmask := { queryCache := true } }
-  | some o =>
+/-- `ares_init_by_options(channel, options, optmask)` for `options != NULL`.  Every field is written by
+    exactly one step of the C function, so the result is given field by field; the server list (the
+    last step that reads other fields) uses the flags and default ports stored before it. -/
+def applyOptions (c : Chan) (o : Options) (m : Mask) : Chan :=
     let nm := normMask o m
     let c1 : Chan :=
       { c with
@@ -184,9 +181,15 @@ def initByOptions (c : Chan) (opts : Option Options) (m : Mask) : Except Status 
         retryChance := if m.serverFailover then o.retryChance else c.retryChance,
         retryDelay := if m.serverFailover then o.retryDelay else c.retryDelay,
         optmask := nm }
-    .ok (if nm.servers then
-           { c1 with servers := serversUpdate c1.udpPort c1.tcpPort (hasFlag c1.flags flagPrimary) c1.servers (o.servers.map v4Server) }
-         else c1)
+    if nm.servers then
+      { c1 with servers := serversUpdate c1.udpPort c1.tcpPort (hasFlag c1.flags flagPrimary) c1.servers (o.servers.map v4Server) }
+    else c1
+
+/-- `ares_init_by_options(channel, options, optmask)` -/
+def initByOptions (c : Chan) (opts : Option Options) (m : Mask) : Except Status Chan :=
+  match opts with
+  | none => if m != {} then .error .enodata else .ok { c with qcacheMaxTtl := 3600, optmask := { queryCache := true } }
+  | some o => .ok (applyOptions c o m)
 
 /-- `ares_sysconfig_apply(channel, sysconfig)`: every field guarded by the bit recorded when the user set it.
     `fixed = false` is the pinned `use-vc` rule (F17). -/
@@ -225,12 +228,15 @@ def initBySysconfig (c : Chan) (e : SysEnv) : Chan :=
   | none => c
   | some s => sysconfigApply c s
 
-/-- `init_by_defaults(channel)` -/
-def initByDefaults (c : Chan) (e : SysEnv) : Except Status Chan :=
-  let flags := if !c.optmask.flags then orFlag c.flags flagEdns else c.flags
-  if c.servers.isEmpty && hasFlag flags flagNoDfltSvr then .error .enoserver
-  else
-    .ok { c with
+def defaultFlags (c : Chan) : Nat := if !c.optmask.flags then orFlag c.flags flagEdns else c.flags
+
+/-- `init_by_defaults` refuses a channel without servers when `ARES_FLAG_NO_DFLT_SVR` is set -/
+def defaultsFail (c : Chan) : Bool := c.servers.isEmpty && hasFlag (defaultFlags c) flagNoDfltSvr
+
+/-- the channel `init_by_defaults` leaves behind when it succeeds -/
+def applyDefaults (c : Chan) (e : SysEnv) : Chan :=
+  let flags := defaultFlags c
+  { c with
       flags := flags,
       ednspsz := if c.ednspsz = 0 then 1232 else c.ednspsz,
       timeout := if c.timeout = 0 then 2000 else c.timeout,
@@ -247,6 +253,10 @@ def initByDefaults (c : Chan) (e : SysEnv) : Except Status Chan :=
       retryChance := if !c.optmask.serverFailover then 10 else c.retryChance,
       retryDelay := if !c.optmask.serverFailover then 5000 else c.retryDelay }
 
+/-- `init_by_defaults(channel)` -/
+def initByDefaults (c : Chan) (e : SysEnv) : Except Status Chan :=
+  if defaultsFail c then .error .enoserver else .ok (applyDefaults c e)
+
 /-- `ares_init_options(&channel, options, optmask)` -/
 def initOptions (e : SysEnv) (opts : Option Options) (m : Mask) : Except Status Chan :=
   match initByOptions { ndots := 1 } opts m with
@@ -256,37 +266,46 @@ def initOptions (e : SysEnv) (opts : Option Options) (m : Mask) : Except Status 
 /-- `ares_reinit(channel)` (after the reload thread has finished) -/
 def reinit (c : Chan) (e : SysEnv) : Chan := initBySysconfig c e
 
+/-- the IPv4 address of a server, if it has one (`ares_save_opt_servers`) -/
+def v4of (s : Server) : Option (List Nat) :=
+  match s.addr with
+  | .v4 o => some o
+  | .v6 _ => none
+
+/-- the fields `ares_save_options` writes (those under the channel's mask; the rest is left alone, here 0) -/
+def savedOptions (c : Chan) : Options :=
+  let m := c.optmask
+  let v4s := c.servers.filterMap v4of
+  { flags := if m.flags then toInt32 c.flags else 0,
+    timeout := if m.timeoutms then toInt32 c.timeout else 0,
+    tries := if m.tries then toInt32 c.tries else 0,
+    ndots := if m.ndots then toInt32 c.ndots else 0,
+    maxtimeout := if m.maxtimeoutms then toInt32 c.maxtimeout else 0,
+    udpPort := if m.udpPort then c.udpPort else 0,
+    tcpPort := if m.tcpPort then c.tcpPort else 0,
+    servers := if m.servers then v4s else [],
+    nservers := if m.servers then v4s.length else 0,
+    domains := if m.domains then c.domains else [],
+    ndomains := if m.domains then c.domains.length else 0,
+    lookups := if m.lookups then c.lookups else none,
+    sortlist := if m.sortlist then c.sortlist else [],
+    nsort := if m.sortlist then c.sortlist.length else 0,
+    resolvPath := if m.resolvconf then c.resolvPath else none,
+    hostsPath := if m.hostsFile then c.hostsPath else none,
+    sndbuf := if m.sndbuf && c.sndbuf > 0 then c.sndbuf else 0,
+    rcvbuf := if m.rcvbuf && c.rcvbuf > 0 then c.rcvbuf else 0,
+    ednspsz := if m.ednspsz then toInt32 c.ednspsz else 0,
+    udpMaxQueries := if m.udpMaxQueries then toInt32 c.udpMaxQueries else 0,
+    qcacheMaxTtl := if m.queryCache then c.qcacheMaxTtl else 0,
+    retryChance := if m.serverFailover then c.retryChance else 0,
+    retryDelay := if m.serverFailover then c.retryDelay else 0 }
+
+/-- `ARES_CONFIG_CHECK(channel)` -/
+def configCheck (c : Chan) : Bool := c.lookups.isSome && !c.servers.isEmpty && c.timeout != 0 && c.tries != 0
+
 /-- `ares_save_options(channel, &options, &optmask)` -/
 def saveOptions (c : Chan) : Except Status (Options × Mask) :=
-  if c.lookups.isNone || c.servers.isEmpty || c.timeout = 0 || c.tries = 0 then .error .enodata
-  else
-    let m := c.optmask
-    let v4s := c.servers.filterMap (fun s => match s.addr with
-      | .v4 o => some o
-      | .v6 _ => none)
-    .ok ({ flags := if m.flags then toInt32 c.flags else 0,
-           timeout := if m.timeoutms then toInt32 c.timeout else 0,
-           tries := if m.tries then toInt32 c.tries else 0,
-           ndots := if m.ndots then toInt32 c.ndots else 0,
-           maxtimeout := if m.maxtimeoutms then toInt32 c.maxtimeout else 0,
-           udpPort := if m.udpPort then c.udpPort else 0,
-           tcpPort := if m.tcpPort then c.tcpPort else 0,
-           servers := if m.servers then v4s else [],
-           nservers := if m.servers then v4s.length else 0,
-           domains := if m.domains then c.domains else [],
-           ndomains := if m.domains then c.domains.length else 0,
-           lookups := if m.lookups then c.lookups else none,
-           sortlist := if m.sortlist then c.sortlist else [],
-           nsort := if m.sortlist then c.sortlist.length else 0,
-           resolvPath := if m.resolvconf then c.resolvPath else none,
-           hostsPath := if m.hostsFile then c.hostsPath else none,
-           sndbuf := if m.sndbuf && c.sndbuf > 0 then c.sndbuf else 0,
-           rcvbuf := if m.rcvbuf && c.rcvbuf > 0 then c.rcvbuf else 0,
-           ednspsz := if m.ednspsz then toInt32 c.ednspsz else 0,
-           udpMaxQueries := if m.udpMaxQueries then toInt32 c.udpMaxQueries else 0,
-           qcacheMaxTtl := if m.queryCache then c.qcacheMaxTtl else 0,
-           retryChance := if m.serverFailover then c.retryChance else 0,
-           retryDelay := if m.serverFailover then c.retryDelay else 0 }, m)
+  if !configCheck c then .error .enodata else .ok (savedOptions c, c.optmask)
 
 /-- `set_servers_csv(channel, csv)` (`ares_set_servers_csv` / `ares_set_servers_ports_csv`) -/
 def setServersCsv (c : Chan) (ifs : Ifaces) (csv : Bytes) : Status × Chan :=
